@@ -22,7 +22,7 @@ class AxilMaster(Mon):
     """drives a master-side AXI-Lite port: aw/w/ar valid+payload, b/r ready are free; contract: valid and payload stay
     until ready (AMBA: a raised valid is never withdrawn)."""
 
-    def __init__(self, bus, tag, cw=3):
+    def __init__(self, bus, tag, cw=3, burst=False):
         self.bus = bus
         self.free = []
         asm = 1
@@ -41,7 +41,8 @@ class AxilMaster(Mon):
         novf = 1
         for chn in ("aw", "w", "b", "ar", "r"):
             c = self.reg(cw, "n_%s_%s" % (chn, tag))
-            self.sync += If(hs(getattr(bus, chn)), c.eq(c + 1))
+            done = hs(getattr(bus, chn)) & (getattr(bus, chn).last if burst and chn in ("w", "r") else 1)
+            self.sync += If(done, c.eq(c + 1))
             self.n[chn] = c
             novf = novf & (c != 2**cw - 1)
         self.no_ovf = Signal(name_override="asm_novf_" + tag)
@@ -52,7 +53,7 @@ class AxilSlave(Mon):
     """drives a slave-side AXI-Lite port: aw/w/ar ready and b/r valid+payload are free; contract: b/r valid and payload
     stay until ready; a response is only given to a request that has been accepted (B after both AW and W)."""
 
-    def __init__(self, bus, tag, cw=3, max_outstanding=None):
+    def __init__(self, bus, tag, cw=3, max_outstanding=None, burst=False):
         self.bus = bus
         self.free = [bus.aw.ready, bus.w.ready, bus.ar.ready, bus.b.valid, bus.b.resp, bus.r.valid, bus.r.resp, bus.r.data]
         asm = 1
@@ -66,7 +67,8 @@ class AxilSlave(Mon):
         novf = 1
         for chn in ("aw", "w", "b", "ar", "r"):
             c = self.reg(cw, "n_%s_%s" % (chn, tag))
-            self.sync += If(hs(getattr(bus, chn)), c.eq(c + 1))
+            done = hs(getattr(bus, chn)) & (getattr(bus, chn).last if burst and chn in ("w", "r") else 1)
+            self.sync += If(done, c.eq(c + 1))
             self.n[chn] = c
             novf = novf & (c != 2**cw - 1)
         n = self.n
